@@ -61,6 +61,33 @@ def grid_of(desc):
     return np.array([float.fromhex(h) for h in desc["grid"]])
 
 
+_STEP_FIXED = None
+
+
+def step_fixed():
+    """Which StepExpansion.__init__ is in the tree: today's interval tests on float coordinates (False), or the
+    proposed repair fixes/C13_step_partition.diff that partitions by node number (True).  Decided by behaviour on the
+    two finding witnesses; a tree that repairs only one of them counts as unrepaired (and is reported)."""
+    global _STEP_FIXED
+    if _STEP_FIXED is None:
+        import cuqi.geometry as G
+        ok = []
+        for (a, b, N, n) in ((0.0, 1.0, 6, 5), (1e-3, 1e3, 11, 11)):
+            g = G.StepExpansion(np.linspace(a, b, N), n_steps=n)
+            ideal = [[k for k in range(N) if ideal_step_of_node(N, n, k) == i] for i in range(n)]
+            ok.append([list(map(int, i)) for i in g._indices] == ideal)
+        _STEP_FIXED = all(ok)
+    return _STEP_FIXED
+
+
+def step_idx_term(d):
+    """Coq term for the _indices of a StepExpansion: the bit-exact float model of today's code, or the node-number
+    partition of the repaired code"""
+    if step_fixed():
+        return "(step_indices_ideal %s %s)" % (cnat(len(d["grid"])), cnat(d["n_steps"]))
+    return "(step_indices_F %s %s)" % (clist([cfloat(float.fromhex(h)) for h in d["grid"]]), cnat(d["n_steps"]))
+
+
 def enc_geom(d):
     k = d["kind"]
     if k in ("cont1d", "default1d"):
@@ -78,8 +105,7 @@ def enc_geom(d):
         return "(GKL %s %s %s %s %s %s)" % (cnat(d["N"]), copt(d["num_modes"], cnat), clist([cqc(v) for v in c["coefs"]]), cqc(d["tau"]),
                                             cmat(c["dst"]), cmat(c["idst"]))
     if k == "step":
-        return "(GStep %s (step_indices_F %s %s) %s)" % (cnat(len(d["grid"])), clist([cfloat(float.fromhex(h)) for h in d["grid"]]),
-                                                      cnat(d["n_steps"]), {"mean": "PMean", "max": "PMax", "min": "PMin"}[d["proj"]])
+        return "(GStep %s %s %s)" % (cnat(len(d["grid"])), step_idx_term(d), {"mean": "PMean", "max": "PMax", "min": "PMin"}[d["proj"]])
     raise ValueError(k)
 
 
@@ -372,6 +398,23 @@ def prop_check_map(d, g, mapname, x, y):
                 docf = np.array([float(v) for v in doc.ravel()]).reshape(doc.shape)
                 if not same(y0, docf, True):
                     return "par2fun places parameters differently from the documentation: got %s, documented %s" % (y0.tolist(), docf.tolist())
+    # documented projection of StepExpansion.fun2par: p[i] = mean / max / min of the function values at the nodes of step i
+    # (through MappedGeometry: of imap(f)); stated on the ideal partition, so only where the implementation's partition is it
+    if mapname == "fun2par" and innermost(d)["kind"] == "step" and has_inv and not step_defect(innermost(d)):
+        st = innermost(d)
+        N, n = len(st["grid"]), st["n_steps"]
+        f0 = np.asarray(cols[0], dtype=float)
+        vals = [frac(v) for v in f0]
+        for m in chain_of(d):
+            vals = [(v - frac(m["b"])) / frac(m["a"]) for v in vals]
+        want_p = []
+        for i in range(n):
+            sel = [vals[t] for t in range(N) if ideal_step_of_node(N, n, t) == i]
+            want_p.append({"mean": lambda L: sum(L) / len(L), "max": max, "min": min}[st["proj"]](sel) if sel else None)
+        y0 = np.asarray(y if (k is None or k == 1) else y[..., 0], dtype=float).reshape(-1)
+        if all(w is not None for w in want_p) and not same(y0, np.array([float(w) for w in want_p]), False):
+            return "fun2par is not the documented '%s' projection over the nodes of each step: got %s, documented %s" % (
+                st["proj"], y0.tolist(), [float(w) for w in want_p])
     # mutual inverse / projection
     # (the inverse is applied to single columns here; its own behaviour on batches is checked by its own cases)
     ycols = [y] if (k is None or k == 1) else [y[..., j] for j in range(k)]
@@ -421,9 +464,8 @@ def map_case(d, mapname, x, form):
     k, _ = split_cols(x, in_base_of(d, mapname))
     if innermost(d)["kind"] == "step" and mapname == "fun2par" and d["kind"] == "step":
         obs = "None" if y is None else "(Some %s)" % carr(y, coqc_opt)
-        expr = "check_step_fun2par %s (step_indices_F %s %s) %s %s %s" % (
-            cnat(len(d["grid"])), clist([cfloat(float.fromhex(h)) for h in d["grid"]]), cnat(d["n_steps"]),
-            {"mean": "PMean", "max": "PMax", "min": "PMin"}[d["proj"]], carr(x), obs)
+        expr = "check_step_fun2par %s %s %s %s %s" % (
+            cnat(len(d["grid"])), step_idx_term(d), {"mean": "PMean", "max": "PMax", "min": "PMin"}[d["proj"]], carr(x), obs)
     else:
         if y is not None and np.isnan(y).any():
             obs = "None"       # mapped-over-step with NaN: the Qc-valued model refuses; kept out of the generator
@@ -513,7 +555,10 @@ def step_init_case(N, a, b, n, cellname):
     d = {"kind": "step", "grid": hexgrid(grid), "n_steps": n, "proj": "mean"}
     g = G.StepExpansion(grid, n_steps=n)
     idx = [list(map(int, i)) for i in g._indices]
-    expr = "check_step_init_F %s %s %s" % (clist([cfloat(v) for v in grid]), cnat(n), clist([cnatl(s) for s in idx]))
+    if step_fixed():
+        expr = "check_step_init_ideal %s %s %s" % (cnat(N), cnat(n), clist([cnatl(s) for s in idx]))
+    else:
+        expr = "check_step_init_F %s %s %s" % (clist([cfloat(v) for v in grid]), cnat(n), clist([cnatl(s) for s in idx]))
     sd = step_defect(d)
     return Case(expr=expr, meta={"op": "step_init", "geom": d, "a": float(a).hex(), "b": float(b).hex(), "N": N}, cell=cellname, kind="DECISION",
                 impl_fail=sd[1] if sd else None, signature=sd[0] if sd else "")
@@ -699,7 +744,23 @@ def geoms_lattice(ctx):
     return L, kl
 
 
+def spread(cases):
+    """KL cases carry two N x N rational matrices and cost ~0.4 s each in Coq, the others milliseconds: deal the
+    cases round-robin into the shards (heavy ones first) so that no shard consists of KL cases only."""
+    def heavy(c):
+        g = c.meta.get("geom")
+        return bool(g) and innermost(g)["kind"] == "kl"
+    order = [c for c in cases if heavy(c)] + [c for c in cases if not heavy(c)]
+    S = max(1, -(-len(order) // SHARD))
+    out = []
+    for j in range(S):
+        out += order[j::S]
+    return out
+
+
 def run(ctx):
+    global _STEP_FIXED
+    _STEP_FIXED = None
     import cuqi
     rng = ctx.rng
     cases = []
@@ -708,7 +769,7 @@ def run(ctx):
     # ---- 1. maps and shapes over the lattice ------------------------------------------------------
     for d in geoms:
         cases.append(shape_case(d))
-        cases += map_cases_for(ctx, d, reps=ctx.n(1, 3))
+        cases += map_cases_for(ctx, d, reps=ctx.n(1, 2))
     for d in kls:
         if d["num_modes"] != 0:
             cases.append(kl_cert_case(d))
@@ -791,6 +852,9 @@ def run(ctx):
         cases.append(cuqiarray_case(d, rand_arr(rng, tuple(fs)), False, True))
         cases.append(cuqiarray_case(d, rand_arr(rng, tuple(fs)), False, False))
         cases.append(cuqiarray_case(d, rand_arr(rng, tuple(fs) + (2,)), False, True))
+    ctx.note("StepExpansion.__init__ in this tree: %s" % ("node-number partition (fixes/C13_step_partition.diff applied)" if step_fixed()
+                                                         else "interval tests on float coordinates (unrepaired)"))
+    cases = spread(cases)
     return Result(cases=cases, rule=RULE,
                   assumptions=["scipy.fftpack.dst/idst enter the KL model as matrices obtained from scipy on unit vectors; the model checks dst*idst = 2N*I on them (1e-9) and then uses them: KL values are compared within 1e-9",
                                "np.mean over a step is compared within 1e-9 of the exact rational mean",
@@ -893,6 +957,6 @@ def replay(ctx, meta):
     if m.get("op") in ("step_init",):
         g = build_geom(m["geom"])
         print("implementation _indices =", [list(map(int, i)) for i in g._indices])
-        rc, out = eval_in_coq(IMPORTS, "step_indices_F %s %s" % (clist([cfloat(float.fromhex(h)) for h in m["geom"]["grid"]]), cnat(m["geom"]["n_steps"])), tag="replay_C13")
-        print("float model     _indices =", out.strip()[-400:])
+        rc, out = eval_in_coq(IMPORTS, step_idx_term(m["geom"]), tag="replay_C13")
+        print("%s _indices =" % ("node-number model (repaired tree)" if step_fixed() else "float model    "), out.strip()[-400:])
     return 0
